@@ -498,3 +498,32 @@ def nontrivial(case, out):
 
 def matches_known(k, v):
     return False
+
+
+# ---------------------------------------------------------------- the environment assumption (engine: extra_cases)
+# C08's theorems take the order in which a connection task informs the protocols and the manager
+# (`ProtocolSet::report_*`, C07's model) as their `feasible` input hypothesis. The quick check therefore also runs the
+# S1 (real `ProtocolSet`) cases of the C07 area and a few real-node scenarios, judged by C07's property-level oracle:
+# a change that lets the manager learn of a closure before the protocols, or that drops a substream-open answer on a
+# full protocol channel, breaks C08's event grammar only under rare interleavings but shows here at once.
+def extra_cases(rng, tier):
+    from . import c07
+    n = {"quick": 1200, "thorough": 8000, "search": 1500}[tier]
+    cases = []
+    for c in c07.gen_cases(rng, "quick" if tier != "thorough" else "search"):
+        s2 = bool(c) and c[0].startswith("s2")
+        if s2 and len([x for x in cases if x[0].startswith("s2")]) >= (6 if tier == "quick" else 24):
+            continue
+        cases.append(c)
+        if len(cases) >= n:
+            break
+    yield "C07", cases
+
+
+def oracle_extra(xpid, case, out):
+    from . import c07
+    return [dict(v, msg="(ProtocolSet ordering, C07 area) " + v["msg"]) for v in c07.oracle(case, out)]
+
+
+def stats_extra(xpid, case, out, acc):
+    bump(acc, "extra:C07:" + ("s2" if case and case[0].startswith("s2") else "s1"))
